@@ -35,7 +35,7 @@ CONSTANTS AllKeys,     \* key universe (strings); must contain "scan_id", "plan_
                        \* sets tag each value with its layer, equal sets allow any coincidence)
           Idents,      \* identities explored: 10 * plan_type + plan_name (two positive digits)
           VModes,      \* subset of {"accept", "reject"}
-          NModes,      \* subset of {"identity", "rename", "reject"}
+          NModes,      \* subset of {"identity", "rename", "reject", "idraise"}; idraise = identity, and a later subscriber raises on the emitted RunStart (the run is opened all the same)
           RenFrom, RenTo,   \* the rename normalizer moves key RenFrom to key RenTo
           MaxOpens,    \* bound on open_run messages per history
           MaxCalls,    \* bound on RE(...) calls per history
@@ -176,7 +176,7 @@ Winner(k) == IF last.kw[k] # 0 THEN last.kw[k]
              ELSE md[k]                       \* persistent metadata, which holds this run's scan_id
 Overlay == [k \in AllKeys |-> Winner(k)]
 
-C17_Precedence == Started /\ last.nmode = "identity" => last.start = Overlay
+C17_Precedence == Started /\ last.nmode \in {"identity", "idraise"} => last.start = Overlay
 
 C17_Normalized ==
     Started /\ last.nmode = "rename" =>
@@ -186,7 +186,7 @@ C17_Normalized ==
 
 \* the identity of the plan is in every start document unless a later source overrides it
 C17_IdentityPresent ==
-    Started /\ last.nmode = "identity" =>
+    Started /\ last.nmode \in {"identity", "idraise"} =>
         \A k \in {"plan_type", "plan_name"} :
             last.start[k] = (IF last.kw[k] # 0 THEN last.kw[k] ELSE IF last.o[k] # 0 THEN last.o[k] ELSE last.ident[k])
 
@@ -201,7 +201,7 @@ C17_NoGap == gaps = 0            \* the part exempted by the open finding (only 
 
 \* without an override the start document carries that scan_id
 C17_StartScanId ==
-    Started /\ last.nmode = "identity" /\ last.kw["scan_id"] = 0 /\ last.o["scan_id"] = 0 =>
+    Started /\ last.nmode \in {"identity", "idraise"} /\ last.kw["scan_id"] = 0 /\ last.o["scan_id"] = 0 =>
         last.start["scan_id"] = base + opened + gaps
 
 \* an opened run advances the persistent scan_id by exactly one; nothing else of the persistent metadata
